@@ -82,15 +82,22 @@ fn panic_text(e: Box<dyn std::any::Any + Send>) -> String {
 
 // ---------------------------------------------------------------- dedup (C10)
 
-/// {"cmd":"dedup","w":W,"arrivals":[{"ts":f64 seconds,"frame":hex,"id":n}]}
+/// {"cmd":"dedup","w":W,"arrivals":[{"ts":f64 seconds,"frame":hex,"id":n}],"cap":C (optional)}
 /// Every reception carries its identifier in SensorMetadata.serial.
 /// Output: for every arrival the list of records emitted while it was processed.
+/// "cap": capacity of the output channel (default n+1, never full).  With a small
+/// capacity the consumer side below exerts back-pressure: after each arrival it
+/// alternates {yield; drain} until two consecutive drains are empty, so a task that
+/// waits in `send().await` on a full channel resumes and everything it emits is still
+/// attributed to the arrival that closed the groups.
 async fn dedup(req: &Value) -> Value {
     let w = req["w"].as_u64().unwrap_or(0) as u32;
     let arrivals = req["arrivals"].as_array().cloned().unwrap_or_default();
     let n = arrivals.len();
     let (tx, rx) = tokio::sync::mpsc::channel::<TimedMessage>(n + 1);
-    let (tx_out, mut rx_out) = tokio::sync::mpsc::channel::<TimedMessage>(n + 1);
+    let cap = req["cap"].as_u64().map(|c| (c as usize).max(1));
+    let (tx_out, mut rx_out) =
+        tokio::sync::mpsc::channel::<TimedMessage>(cap.unwrap_or(n + 1));
     let task = tokio::spawn(crate::dedup::deduplicate_messages(rx, tx_out, w));
     let mut per_arrival: Vec<Value> = Vec::with_capacity(n);
     let mut crashed = false;
@@ -117,12 +124,25 @@ async fn dedup(req: &Value) -> Value {
             break;
         }
         // let the deduplication task run until it waits for the next arrival
-        for _ in 0..(8 + k / 8) {
-            tokio::task::yield_now().await;
-        }
         let mut emitted = Vec::new();
-        while let Ok(rec) = rx_out.try_recv() {
-            emitted.push(record_json(&rec));
+        let mut empty_drains = 0;
+        loop {
+            for _ in 0..(8 + k / 8) {
+                tokio::task::yield_now().await;
+            }
+            let before = emitted.len();
+            while let Ok(rec) = rx_out.try_recv() {
+                emitted.push(record_json(&rec));
+            }
+            if emitted.len() == before {
+                empty_drains += 1;
+            } else {
+                empty_drains = 0;
+            }
+            // default capacity: the channel is never full, one round is complete
+            if cap.is_none() || empty_drains >= 2 || task.is_finished() {
+                break;
+            }
         }
         per_arrival.push(Value::Array(emitted));
         if task.is_finished() {
